@@ -128,7 +128,7 @@ async function build (tier) {
   let leaves = []
   let stats = { states: 1, transitions: 0 }
   const add = (r) => { leaves = leaves.concat(r.leaves); stats = addStats(stats, r.stats) }
-  add(F.all(tier, { families: ['A', 'B', 'C', 'G', 'M', 'S', 'T', 'H', 'Q', 'R', 'N', 'L'], B: { k: tier === 'thorough' ? 2 : 1 } }))
+  add(F.all(tier, { families: ['A', 'B', 'C', 'G', 'M', 'S', 'T', 'H', 'Q', 'R', 'N', 'L', 'K'], B: { k: tier === 'thorough' ? 2 : 1 } }))
   {
     const r = enumerate([{ name: 'shape', symbols: Object.keys(D_SHAPES), free: true }, { name: 'scope', symbols: ['sloppy', 'strict_fn', 'module'], free: tier === 'thorough' }, { name: 'reenter', symbols: [false, true], free: true }], { k: 0 })
     add({ leaves: r.leaves.map((l) => ({ fam: 'D', key: 'D¦' + l.pick.shape + '¦' + l.pick.scope + '¦' + l.pick.reenter, code: G.SCOPES[l.pick.scope](D_SHAPES[l.pick.shape]), shape: l.pick.shape, reenter: l.pick.reenter, config: 'FULL' })), stats: r.stats })
